@@ -20,7 +20,7 @@ CHARS = ['a', 'B', 'é', '1', '9', '2', '0', '#', '.', '@', 'q', 'w', ' ', 'İ',
 TOKENS = ['pass', 'Word', 'word', 'password', 'é', 'Я', '1', '12', '19', '20', '2019', '1999', '20199', '#1', '#12', '<3', 'No.1', ';p', '*0*',
           'qwer', '1qaz', 'asdf', '123q', '!', '@', '.', '.com', 'www.', 'http://', 'a@b.com', 'mr.', ' ', 'İ', 'abcdefghijklmnopqrstu', 'zaq1', 'x',
           ':P', 'DR.', 'NO.1', '²', '①', '٣', 'κος', 'ſ', '½', 'Ⅷ', 'i\u0307',
-          '1\u0446\u044b\u0447', '1\u0439\u0444\u044f', '\u044112']      # jcuken: a digit with the letter one key too far right below it (no walk), a column walk, the key left of 1      # '½', 'Ⅷ': numeric for isalnum(), neither letter nor digit       # context strings in spellings that are not in the fixed list
+          '1\u0446\u044b\u0447', '1\u0439\u0444\u044f', '\u044112', '.com/', '/']      # jcuken: a digit with the letter one key too far right below it (no walk), a column walk, the key left of 1      # '½', 'Ⅷ': numeric for isalnum(), neither letter nor digit       # context strings in spellings that are not in the fixed list
 HISTORIES = [
     ('untrained', {}, False),
     ('pass,word >= 5', {'pass': 5, 'word': 5}, False),
